@@ -212,6 +212,11 @@ def compare(res, out):
     name = "generate_edits_from_text + apply_edits + extract vs Adeu.Diff.editsOfDiffs + Adeu.Doc.applyEditsIndexed + extractText"
     if "err" in out:
         return [("driver", out["err"])]
+    if any((e[1] or "") and not (e[1] or "").replace("*", "").replace("_", "").strip() for e in res.get("edits", [])):
+        # marker variant of the open finding F-diff-cell-edge (a computed edit whose target is a bold / italic marker alone):
+        # the engine is handed a range that holds no real character; what it does there is the finding, and the model - which
+        # rebuilds its map before every edit (§12.6) - need not do the same. Counted under the finding, not compared.
+        return []
     m = []
     if out["raw_before"] != res["orig"] or out["src"] != res["orig"]:
         m.append((name, "text before: model and implementation (or diff source) differ"))
